@@ -294,12 +294,16 @@ def run(ctx):
 
     ctx.rule("R7.float-order-is-numeric", "every sort of measured values (slices whose elements contain f64) orders them numerically: the comparator is f64::total_cmp / partial_cmp on the values, never a key made of the bit pattern (to_bits orders negative numbers backwards and after the positive ones) - ranks, medians, tie groups and the step-up order all depend on it", floor=3)
     ctx.rule("R8.tie-term-always-applied", "the tie correction handed to the normal approximation is the unconditional result of mann_whitney_tie_term for the ranked data (or the scorer's stored copy of it): no shortcut decides from the ranks that 'there are no ties'", floor=2)
+    ctx.rule("R9.non-finite-guard-first", "a function that maps a non-finite statistic to 'no evidence' (an `is_finite` test of a parameter) makes that test before ANY other computation receives the parameter: a branch taken ahead of the guard (a fast path for huge degrees of freedom, say) turns an infinite statistic into the most significant p-value instead of 1", floor=2)
+    ctx.rule("R10.theil-sen-every-pair", "theil_sen_line records one slope for EVERY pair i<j (the median of all pairwise slopes is the definition): no pair is filtered out between the inner loop's element and the push - an overflowing pair saturates to +-inf, which is exactly its place in the ordering", floor=1)
     ctx.rule("R5.median-needs-total-order", "median_in_place reads its (one or two) middle positions from a totally sorted slice", floor=1)
     ctx.rule("R6.step-up-scans-every-rank", "benjamini_hochberg: sort, then one scan over every ordered p-value keeps the largest passing rank; no return before the scan", floor=1)
     ctx.rule("R4.memo-independent-of-call-arguments", "a lazily filled cache (Option::get_or_insert_with / OnceCell::get_or_init on a field of self) is computed from self's state only, never from the arguments of the call that happens to fill it", floor=1)
     memo_rule(ctx, prog)
     order_statistic_rules(ctx, prog)
     float_order_and_tie_rules(ctx, prog)
+    non_finite_guard_rule(ctx, prog)
+    theil_sen_rule(ctx, prog)
 
     R = Ranges(prog)
     ctx.extra["unknown_calls_in_range_analysis"] = sorted(set(R.unknown))[:20]
@@ -435,6 +439,68 @@ def float_order_and_tie_rules(ctx, prog):
                ("" if ok else " - a constant alternative means some tied data is approximated without the tie correction (tie groups of odd size leave every doubled rank even)"))
     if m == 0:
         ctx.missing("R8.tie-term-always-applied", "calls of stats::normal_mann_whitney_p")
+
+
+def non_finite_guard_rule(ctx, prog):
+    n = 0
+    for b in prog.bodies:
+        if b.crate != "cbh_stats" or "::tests" in b.key or b.is_closure or not b.arg_count:
+            continue
+        guards = {}
+        for bb, t in b.calls():
+            if t["callee"].get("method") == "is_finite" and t["args"] and not b.blocks[bb].cleanup:
+                sl = Slice(b, through_calls=False).run(t["args"][0])
+                if len(sl["args"]) == 1 and not sl["calls"] and not sl["binops"]:
+                    guards.setdefault(next(iter(sl["args"])), []).append(bb)
+        if not guards:
+            continue
+        dom = b.dominators(unwind=False)
+        for prm, gbbs in sorted(guards.items()):
+            n += 1
+            early = []
+            for bb, t in b.calls():
+                if bb in gbbs or b.blocks[bb].cleanup or t["callee"].get("method") in ("is_finite", "is_nan", "is_infinite"):
+                    continue
+                if any(prm in Slice(b, through_calls=False).run(a)["args"] for a in t["args"] if a.get("k") in ("copy", "move")):
+                    if not any(g in dom[bb] for g in gbbs):
+                        early.append(f"{callee_key(t['callee']).split('::')[-1]}@{b.loc(t['span'])}")
+            ctx.fn(b)
+            ctx.ob("R9.non-finite-guard-first", f"{b.key.split('::')[-1]}:_{prm}", not early, b.loc(),
+                   f"computations that receive parameter _{prm} without the is_finite test before them: {early or 'none'}")
+    if n == 0:
+        ctx.missing("R9.non-finite-guard-first", "is_finite guards on parameters in cbh_stats")
+
+
+def theil_sen_rule(ctx, prog):
+    b = prog.one("stats::theil_sen_line")
+    if b is None:
+        ctx.missing("R10.theil-sen-every-pair", "stats::theil_sen_line")
+        return
+    ctx.fn(b)
+    pushes = [bb for bb, t in b.calls() if t["callee"].get("method") in ("push", "push_within_capacity") and "Vec" in callee_key(t["callee"]) and b.in_loop(bb)]
+    ok, det = False, f"in-loop Vec::push sites {len(pushes)}"
+    if len(pushes) == 1:
+        pb = pushes[0]
+        # the innermost loop around the push: the `next` whose Some arm reaches the push and which the push reaches back without
+        # passing another such `next`
+        nxts = [(bb, t) for bb, t in b.calls() if t["callee"].get("method") == "next" and b.in_loop(bb) and pb in b.successors_reach(bb, False) and bb in b.successors_reach(pb, False)]
+        inner = [(bb, t) for bb, t in nxts if bb in b.reachable(b.term_succ(pb, False), unwind=False, avoid=[x for x, _ in nxts if x != bb])]
+        if inner:
+            nb = inner[0][0]
+            dest = b.blocks[nb].term["dest"]["l"]
+            some_t = []
+            for blk in b.blocks:
+                t = blk.term
+                if t["k"] == "switch":
+                    l = op_local(t["discr"])
+                    d = b.unique_def(l) if l is not None else None
+                    if d and d[2] == "assign" and d[3]["rv"]["k"] == "discr" and d[3]["rv"]["place"]["l"] == dest:
+                        some_t = [tg for v, tg in t["arms"] if v == 1] or ([t["otherwise"]] if all(v == 0 for v, _ in t["arms"]) else [])
+            if some_t:
+                okp, _off = b.must_pass(some_t, [pb], [nb] + b.exits(("return",)))
+                ok = okp
+                det += f"; every path from an element of the inner loop back to its `next` passes the push: {okp}"
+    ctx.ob("R10.theil-sen-every-pair", "theil_sen_line", ok, b.loc(), det)
 
 
 def order_statistic_rules(ctx, prog):
